@@ -1484,6 +1484,11 @@ class SyncObj(object):
                     selfData = data[0]
                     consumersData = []
 
+                if selfData.get('_SyncObj__enabledCodeVersion', 0) > self.__selfCodeVersion:
+                    # The snapshot was taken with a code version enabled that this node does not support:
+                    # installing it would carry the node past the version entry it has to stop at.
+                    raise SyncObjExceptionWrongVer(selfData['_SyncObj__enabledCodeVersion'])
+
                 for k, v in iteritems(selfData):
                     self.__dict__[k] = v
 
